@@ -2,6 +2,7 @@ package props
 
 import (
 	"fmt"
+	"runtime"
 	"sync"
 
 	"github.com/virus-evolution/gofasta/pkg/alphabet"
@@ -263,6 +264,75 @@ func runC17(c *fw.Ctx, idx int) fw.Result {
 			if _, err := alphabet.Translate(string(sb)+"A", false); err == nil {
 				res.Fail("translate-length", "a sequence whose length is not a multiple of 3 was translated without error", nil, nil)
 			}
+		}
+		// genome-length sequences, under several processor settings: the tables are per symbol,
+		// the functions over sequences must be too, whatever the length
+		{
+			before := runtime.GOMAXPROCS(0)
+			EA := encoding.MakeEncodingArray()
+			for k := 0; k < 3; k++ {
+				L := []int{8191, 8192, 8193, 29903, 65537, 100003, r.Range(1000, 120000), r.Range(1000, 120000)}[r.Intn(8)]
+				procs := []int{1, 2, 3, 7, 16}[r.Intn(5)]
+				runtime.GOMAXPROCS(procs)
+				s := gen.RandSeq(r, L, gen.SeqProfile{PAmbig: 0.2, PGap: 0.05, PQ: 0.02, PLower: 0.2})
+				res.Evals += 4
+				res.Count("long_sequences", 1)
+				res.Sig(fmt.Sprintf("long|%d|p%d", L, procs))
+				comp := alphabet.Complement(s)
+				rc := alphabet.ReverseComplement(s)
+				fr := fastaio.FastaRecord{ID: "x", Seq: s}
+				ef := fr.Encode()
+				ec, erc := ef.Complement(), ef.ReverseComplement()
+				bad := ""
+				if len(comp) != L || len(rc) != L || len(ec.Seq) != L || len(erc.Seq) != L || len(ef.Seq) != L {
+					bad = "a result has a different length than the input"
+				}
+				for i := 0; i < L && bad == ""; i++ {
+					a, _ := model.SetOf(s[i], false)
+					want := model.ComplementSet(a)
+					b, ok1 := model.SetOf(comp[i], false)
+					d, ok2 := model.SetOf(rc[L-1-i], false)
+					switch {
+					case !ok1 || b != want:
+						bad = fmt.Sprintf("Complement: position %d of %d: %q -> %q", i, L, s[i], comp[i])
+					case !ok2 || d != want:
+						bad = fmt.Sprintf("ReverseComplement: position %d of %d (from the end): %q -> %q", i, L, s[i], rc[L-1-i])
+					case ef.Seq[i] != EA[s[i]]:
+						bad = fmt.Sprintf("Encode: position %d of %d: %q -> %d", i, L, s[i], ef.Seq[i])
+					case ec.Seq[i] != EA[comp[i]]:
+						bad = fmt.Sprintf("encoded Complement: position %d of %d: %q -> code %d", i, L, s[i], ec.Seq[i])
+					case erc.Seq[L-1-i] != EA[comp[i]]:
+						bad = fmt.Sprintf("encoded ReverseComplement: position %d of %d: %q -> code %d", i, L, s[i], erc.Seq[L-1-i])
+					}
+				}
+				if bad == "" && (alphabet.Complement(comp) != s || alphabet.ReverseComplement(rc) != s) {
+					bad = "complement / reverse complement twice is not the identity"
+				}
+				if bad != "" {
+					res.Fail("long-sequence", fmt.Sprintf("sequence of length %d with GOMAXPROCS=%d: %s", L, procs, bad), map[string]string{"seq.txt": s}, nil)
+				}
+				// translation of a long coding sequence = per-codon products
+				n := L / 3
+				cds := make([]byte, 0, 3*n)
+				want := make([]byte, 0, n)
+				for i := 0; i < n; i++ {
+					var cod [3]byte
+					for j := range cod {
+						if r.Chance(0.05) {
+							cod[j] = iupac15[r.Intn(15)]
+						} else {
+							cod[j] = "ACGT"[r.Intn(4)]
+						}
+					}
+					w, _ := model.TranslateAmbig(string(cod[:]))
+					cds = append(cds, cod[:]...)
+					want = append(want, w)
+				}
+				if t, err := alphabet.Translate(string(cds), false); err != nil || t != string(want) {
+					res.Fail("long-sequence-translate", fmt.Sprintf("Translate of a %d-codon sequence with GOMAXPROCS=%d differs from the per-codon products (err=%v)", n, procs, err), map[string]string{"cds.txt": string(cds)}, nil)
+				}
+			}
+			runtime.GOMAXPROCS(before)
 		}
 		for k := 0; k < 50; k++ {
 			L := r.Range(0, 200)
